@@ -545,7 +545,7 @@ fn invlpgb_case(out: &mut Out, s: u8, start: u64, end: u64, count_max: u16, pcid
     } else {
         cpu::drain();
         let (recs, st) = crate::idt::in_child_mode(crate::trap::EMU, || {
-            unsafe { libc::alarm(6) };
+            unsafe { libc::alarm(20) };
             let ok = invlpgb_run(s, start, end, count_max, pcid, asid, global, fin, nested, nasid);
             let over = cpu::NLOG.load(Ordering::SeqCst) > cpu::MAXLOG;
             for x in cpu::drain() {
